@@ -19,6 +19,10 @@ BATCH_PAIRED = ("arrow_array::record_batch::RecordBatch", "columns", "schema")
 
 def run(ck, tier):
     F = factsmod.Facts("ws")
+    from . import influence as _infl
+    _infl.run(ck, F, 'C01')
+    from . import c01x
+    c01x.run(ck, F)
     r9 = core.Renamed(ck, "C09.", "C01.")
     c09.run_obligations(r9, F)
     c09.run_stored(r9, F)
